@@ -108,19 +108,23 @@ fn sys(ns: i64) -> SystemTime {
 }
 
 /// Does the emitted string denote the time `t_ns` in the unit of `fmt`? Err = not a number.
-/// Integer output: within less than one unit (the statement does not pick floor vs round).
-/// Floating output: within 4 ulp of the exact quotient (two roundings are unavoidable).
+/// EpochMicros (whole microseconds): less than one unit away - the statement does not pick floor
+/// vs round. Floating formats: within 4 ulp of the exact quotient (two roundings are unavoidable).
 fn denotes(s: &str, fmt: Fmt, t_ns: u128) -> Result<bool, ()> {
     let unit = fmt.unit_ns();
-    if let Ok(p) = s.parse::<u128>() {
-        let scaled = p.checked_mul(unit).ok_or(())?;
-        return Ok(scaled.abs_diff(t_ns) < unit);
+    if fmt == Fmt::Micros {
+        if let Ok(p) = s.parse::<u128>() {
+            return Ok(p.checked_mul(unit).ok_or(())?.abs_diff(t_ns) < unit);
+        }
     }
     let p: f64 = s.parse().map_err(|_| ())?;
     if !p.is_finite() {
         return Err(());
     }
     let e = t_ns as f64 / unit as f64;
+    if fmt == Fmt::Micros {
+        return Ok((p - e).abs() < 1.0);
+    }
     Ok((p - e).abs() <= 4.0 * f64::EPSILON * e.abs())
 }
 
@@ -280,7 +284,12 @@ fn check(st: &mut St, t_create: i64, t_close: i64, adv_s: u64, route: Route, ver
             Ok(true) => {}
             Err(()) => st.v.add(format!("timestamp:not-a-number:{kind}:{}", fmt.name()), format!("{kind} field {name} emitted {got:?}"), with(json!(got))),
             Ok(false) => {
-                let other_unit = [Fmt::Seconds, Fmt::Millis, Fmt::Micros].into_iter().find(|f| f.unit_ns() != fmt.unit_ns() && relevant != 0 && denotes(got, *f, relevant as u128) == Ok(true));
+                // "wrong unit" = the emitted number is (to 0.1%) the injected time expressed in another unit
+                let parsed = got.parse::<f64>().unwrap_or(f64::NAN);
+                let other_unit = [Fmt::Seconds, Fmt::Millis, Fmt::Micros].into_iter().find(|f| {
+                    let e = relevant as f64 / f.unit_ns() as f64;
+                    f.unit_ns() != fmt.unit_ns() && e >= 1.0 && ((parsed - e) / e).abs() < 1e-3
+                });
                 let key = if let Some(_u) = other_unit {
                     format!("timestamp:wrong-unit:{}", fmt.name())
                 } else if other >= 0 && other != relevant && denotes(got, fmt, other as u128) == Ok(true) {
